@@ -1,6 +1,7 @@
 package props
 
 import (
+	"strings"
 	"fmt"
 	"path/filepath"
 	"verif/checker/internal/skel"
@@ -50,6 +51,24 @@ func allOfMembers(cfg gen.Config) []member {
 	base := obj(&fam.Prop{Label: "note", Spec: str("minLength")}, &fam.Prop{Label: "id", Spec: &fam.Spec{Kind: "integer"}, Required: true})
 	base.Ref = "$defs"
 	wrap("referenced branch + constraint-only branch", &fam.Spec{Kind: "object", AllOf: []*fam.Spec{base, {Kind: "any", ReqOnly: []string{"note"}}}})
+	// one definition as the first branch of two compositions that extend it differently (the merge must not write into the shared base)
+	{
+		shared := obj(&fam.Prop{Label: "nm", Spec: str("minLength"), Required: true})
+		shared.Ref = "$defs"
+		cat := &fam.Spec{Kind: "object", AllOf: []*fam.Spec{shared, obj(&fam.Prop{Label: "tag", Spec: &fam.Spec{Kind: "integer", Kw: []string{"minimum"}}}, &fam.Prop{Label: "lives", Spec: &fam.Spec{Kind: "integer"}, Required: true})}}
+		dog := &fam.Spec{Kind: "object", AllOf: []*fam.Spec{shared, obj(&fam.Prop{Label: "tag2", SameAs: "tag", Spec: str("maxLength")}, &fam.Prop{Label: "tricks", Spec: str()})}}
+		out = append(out, member{name: "allOf: one base definition extended by two compositions", cfg: cfg, root: obj(&fam.Prop{Label: "cat", Spec: cat, Required: true}, &fam.Prop{Label: "dog", Spec: dog}, &fam.Prop{Label: "plain", Spec: shared})})
+	}
+	// a composition re-declares properties of the referenced base with further keywords: the base's own type keeps exactly its own
+	{
+		arr := func(kws ...string) *fam.Spec { return &fam.Spec{Kind: "array", Items: str(), Kw: kws} }
+		shared := obj(&fam.Prop{Label: "code", Spec: str("minLength")}, &fam.Prop{Label: "hosts", Spec: arr("maxItems")}, &fam.Prop{Label: "n", Spec: &fam.Spec{Kind: "integer", Kw: []string{"minimum"}}})
+		shared.Ref = "$defs"
+		comp := &fam.Spec{Kind: "object", AllOf: []*fam.Spec{shared, obj(&fam.Prop{Label: "code2", SameAs: "code", Spec: str("maxLength", "pattern")}, &fam.Prop{Label: "hosts2", SameAs: "hosts", Spec: arr("minItems")},
+			&fam.Prop{Label: "n2", SameAs: "n", Spec: &fam.Spec{Kind: "integer", Kw: []string{"maximum"}}})}}
+		out = append(out, member{name: "allOf: a composition tightens properties of its referenced base; the base is also used on its own", cfg: cfg,
+			root: obj(&fam.Prop{Label: "comp", Spec: comp, Required: true}, &fam.Prop{Label: "plain", Spec: shared})})
+	}
 	// three and four branches
 	for n := 3; n <= 4; n++ {
 		var bs []*fam.Spec
@@ -59,6 +78,29 @@ func allOfMembers(cfg gen.Config) []member {
 		wrap(fmt.Sprintf("%d disjoint branches", n), &fam.Spec{Kind: "object", AllOf: bs})
 	}
 	return out
+}
+
+// runCompositions runs the composition members in which a referenced definition is merged with branches that restate its
+// properties, and keeps the issues about the given keywords: the constraints emitted for a type are the ones ITS schema states,
+// whatever was merged from it elsewhere (validators must not read schema nodes that a later merge wrote to).
+func runCompositions(c *core.Ctx, rules map[string]bool, words ...string) {
+	for _, mb := range allOfMembers(gen.DefaultConfig()) {
+		if !strings.HasPrefix(mb.name, "allOf: ") {
+			continue
+		}
+		runMember(c, mb, rules, 64, func(w *fam.World, fm *fam.FileModel) []fam.Issue {
+			var keep []fam.Issue
+			for _, is := range checkRoot(w, fm) {
+				for _, wd := range words {
+					if strings.Contains(is.Msg, wd) || strings.Contains(is.Construct, wd) {
+						keep = append(keep, is)
+						break
+					}
+				}
+			}
+			return keep
+		})
+	}
 }
 
 // C11 — allOf is conjunction and anyOf is disjunction for object schemas.
